@@ -28,11 +28,15 @@ pub struct Cfg {
     pub datum_focus: bool,
     /// C08: every input / mint / burn / withdrawal block carries a redeemer with high probability
     pub redeemer_focus: bool,
+    /// C07: value expressions made of asset atoms in which exactly one of policy / name / amount is a
+    /// parameter and the rest literal, summed with literal atoms (what a reduction *before* the arguments
+    /// arrive must leave alone)
+    pub partial_const: bool,
 }
 
 impl Default for Cfg {
     fn default() -> Self {
-        Cfg { cardano_pct: 10, redeemers: true, risky_pct: 25, boundary_ints: false, max_txs: 2, balanced: false, min_utxo: false, max_cases: 4, datum_pct: 60, mint_pct: 40, datum_focus: false, redeemer_focus: false }
+        Cfg { cardano_pct: 10, redeemers: true, risky_pct: 25, boundary_ints: false, max_txs: 2, balanced: false, min_utxo: false, max_cases: 4, datum_pct: 60, mint_pct: 40, datum_focus: false, redeemer_focus: false, partial_const: false }
     }
 }
 
@@ -666,6 +670,24 @@ impl<'r> Builder<'r> {
 
     /// value atoms that are never negative in comfortable worlds
     fn value_atom(&mut self, allow_fees: bool) -> E {
+        if self.cfg.partial_const && self.rng.chance(2, 3) {
+            self.tag("partial-const-atom");
+            let which = self.rng.below(5);
+            let pol = if which == 0 { self.param(Ty::Bytes, Role::Bytes(Some(28))) } else { self.hex_lit(Some(28)) };
+            let name = if which == 1 {
+                self.param(Ty::Bytes, Role::Bytes(Some(8)))
+            } else if self.rng.bool() {
+                E::Str(["GOLD", "s", "NFT 1"][self.rng.usize(3)].to_string())
+            } else {
+                let n = 1 + self.rng.usize(8);
+                self.hex_lit(Some(n))
+            };
+            let amt = if which == 2 { self.param(Ty::Int, Role::Int(1, 2_000_000)) } else { E::Int(self.rng.range(1, 3_000_000) as i128) };
+            return match which {
+                3 => E::Ada(Box::new(E::Int(self.rng.range(1, 3_000_000) as i128))),
+                _ => E::AnyAsset(Box::new(pol), Box::new(name), Box::new(amt)),
+            };
+        }
         match self.rng.below(10) {
             0 | 1 | 2 | 3 => {
                 let n = self.amount_int(Pos::Asset);
@@ -700,7 +722,7 @@ impl<'r> Builder<'r> {
     /// output amount: a sum of atoms, or `input - small - small ...` (change-like)
     fn output_value(&mut self) -> E {
         let inputs: Vec<String> = self.cur_tx.inputs.iter().map(|i| i.name.clone()).collect();
-        if !inputs.is_empty() && self.rng.chance(1, 2) {
+        if !inputs.is_empty() && self.rng.chance(1, if self.cfg.partial_const { 5 } else { 2 }) {
             let src = self.rng.pick(&inputs).clone();
             self.tag("input-as-assets");
             let mut e = E::InputValue(src);
